@@ -519,11 +519,8 @@ func (s *Store[H]) flushLoop(ctx context.Context) {
 
 // flush writes given headers to datastore
 func (s *Store[H]) flush(ctx context.Context, headers ...H) error {
-	ln := len(headers)
-	if ln == 0 {
-		return nil
-	}
-
+	// NOTE: even with no headers to write the head and tail pointers are persisted,
+	// they may have moved since the last flush (e.g. a delete emptied the pending batch)
 	batch, err := s.ds.Batch(ctx)
 	if err != nil {
 		return err
